@@ -1220,3 +1220,40 @@ def sym_peel(s_):
         else:
             break
     return s_
+
+
+def pat_bind_ids(p, out=None):
+    out = set() if out is None else out
+    if isinstance(p, dict):
+        if p.get("k") == "bind":
+            out.add(p.get("id"))
+        for k in ("sub", "alts", "fields", "pre", "post", "mid"):
+            v = p.get(k)
+            if isinstance(v, dict):
+                pat_bind_ids(v, out)
+            elif isinstance(v, list):
+                for x in v:
+                    pat_bind_ids(x.get("p") if isinstance(x, dict) and "p" in x and "k" not in x else x, out)
+    return out
+
+
+def bound_inside(n):
+    """ids of locals bound by patterns inside expression n (let, match arms, closures, for)."""
+    out = set()
+    for x in walk(n):
+        k = x.get("k")
+        if k in ("letst", "let", "for"):
+            pat_bind_ids(x.get("pat"), out)
+        elif k == "match":
+            for a in x["arms"]:
+                pat_bind_ids(a["pat"], out)
+        elif k == "closure":
+            for p in x.get("params", []):
+                pat_bind_ids(p, out)
+    return out
+
+
+def free_locals(n):
+    """(name, id) of locals used in n that are bound outside n."""
+    inner = bound_inside(n)
+    return [(x["n"], x["id"]) for x in walk(n) if x.get("k") == "local" and x.get("id") not in inner]
